@@ -28,6 +28,7 @@ import (
 	"fmt"
 	mrand "math/rand"
 	"net/http"
+	"net/url"
 	"os"
 	"sort"
 	"strings"
@@ -318,15 +319,16 @@ func c08FamFlags(fam string) []string {
 }
 
 type c08World struct {
-	run     *vfRun
-	w       *vfWorld
-	ht      string
-	issuer  map[string]*vfProxy
-	insts   []*c08Inst
-	redisMu sync.Mutex
-	owned   map[string]bool
-	noteMu  sync.Mutex
-	notes   map[string][]string
+	run            *vfRun
+	w              *vfWorld
+	ht             string
+	issuer         map[string]*vfProxy
+	insts          []*c08Inst
+	redisMu        sync.Mutex
+	owned          map[string]bool
+	noteMu         sync.Mutex
+	notes          map[string][]string
+	emptiedWitness []interface{}
 }
 
 // withNewRedisKey runs f (a login) and returns the Redis key it created together with its value. Keys that other
@@ -1088,6 +1090,212 @@ func c08Reload(cw *c08World) {
 				}
 			}
 		}
+		c08Emptied(cw, in, path, subs)
+	}
+	switch n := run.Counter("emptied_list_never_enforced"); {
+	case n >= 2:
+		c08Violation(run, "c08:emptied-allow-list-not-enforced", fmt.Sprintf("in %d independent histories an address stayed authorised for 4 s after the e-mails file had been rewritten to contain no address at all", n), cw.emptiedWitness)
+	case n == 1:
+		run.Inconclusive("an emptied e-mails file was not enforced within 4 s in one history only (slow reload?)")
+	}
+}
+
+func c08WriteFile(run *vfRun, path, how, text string) {
+	if how == "in-place rewrite" {
+		if err := os.WriteFile(path, []byte(text), 0o600); err != nil {
+			run.T.Fatalf("c08: %v", err)
+		}
+		return
+	}
+	tmp := path + ".tmp"
+	if err := os.WriteFile(tmp, []byte(text), 0o600); err != nil {
+		run.T.Fatalf("c08: %v", err)
+	}
+	if err := os.Rename(tmp, path); err != nil {
+		run.T.Fatalf("c08: %v", err)
+	}
+}
+
+func (cw *c08World) bearerFor(email string) string {
+	now := time.Now()
+	return "Bearer " + vfMint(map[string]interface{}{"iss": cw.w.IdP.Issuer, "aud": "cid", "sub": "probe", "email": email, "groups": []string{}, "preferred_username": "c",
+		"exp": now.Add(time.Hour).Unix(), "iat": now.Add(-time.Minute).Unix()}, vfMintOpts{})
+}
+
+// pollAuth polls /oauth2/auth with a bearer token for email until the answer is (202) == want, bounded.
+func (cw *c08World) pollAuth(p *vfProxy, email string, want bool, tries int) bool {
+	auth := cw.bearerFor(email)
+	for k := 0; k < tries; k++ {
+		if (p.Do(vfGET("/oauth2/auth", "Authorization", auth)).Code == 202) == want {
+			return true
+		}
+		time.Sleep(25 * time.Millisecond)
+	}
+	return false
+}
+
+// c08Emptied: histories that END with an e-mails file without any address (empty file, comments only, blank lines),
+// written atomically or in place, after sessions were issued under a list that contained their address. The empty
+// version cannot be probed positively, so visibility is polled with a separate probe (a bearer token of a listed
+// address on the auth-only endpoint, up to 4 s); the sessions and tokens of the other addresses are judged afterwards.
+// A single history in which the list never empties is inconclusive, two or more are a violation.
+func c08Emptied(cw *c08World, in *c08Inst, path string, subs []*c08Subject) {
+	run := cw.run
+	type hist struct{ how, form, text string }
+	hs := []hist{
+		{"atomic write+rename", "comments only", "# authenticated e-mails\n# nobody\n"},
+		{"in-place rewrite", "empty file", ""},
+		{"atomic write+rename", "empty file", ""},
+		{"in-place rewrite", "comments only", "# nobody\n"},
+	}
+	if run.Env.Thorough() {
+		hs = append(hs, hist{"atomic write+rename", "blank lines", "\n\n"}, hist{"in-place rewrite", "blank lines", "\n"})
+	}
+	for hi, h := range hs {
+		marker := fmt.Sprintf("marker-%d@reload.test", hi)
+		var lines []c08FileLine
+		for _, s := range subs {
+			lines = append(lines, c08FileLine{s.Email, "plain"})
+		}
+		lines = append(lines, c08FileLine{marker, "plain"})
+		c08WriteFile(run, path, []string{"atomic write+rename", "in-place rewrite"}[hi%2], c08FileText(lines))
+		if !cw.pollAuth(in.P, marker, true, 400) {
+			run.Inconclusive("e-mails file reload not visible after 10 s (before emptying)")
+			run.Eval("")
+			continue
+		}
+		in.Rules = c08RuleSet{Name: fmt.Sprintf("listed-before-emptying-%d", hi), Domains: []string{"nomatch.invalid"}, File: lines}
+		for _, s := range subs[:2] {
+			cw.restore(s)
+			cw.probe(in, "listed, before the file is emptied", "cookie", s, s.cookieLines[in.key()], "", "/x?a=1", true, "", fmt.Sprintf("c08e-%s-%d-%d-pre", in.Store, hi, s.n))
+		}
+		c08WriteFile(run, path, h.how, h.text)
+		history := fmt.Sprintf("session issued while the address was listed; e-mails file then rewritten to %s (%s)", h.form, h.how)
+		run.Eval(fmt.Sprintf("emptied|%s|%s|%s", h.how, h.form, in.Store))
+		if !cw.pollAuth(in.P, marker, false, 160) {
+			run.Count("emptied_list_never_enforced", 1)
+			cw.noteMu.Lock()
+			cw.emptiedWitness = append(cw.emptiedWitness, map[string]interface{}{"flags": in.P.Flags, "store": in.Store, "history": history, "file_before": c08FileText(lines), "file_after": h.text,
+				"probe": "GET /oauth2/auth with a bearer token for " + marker + " still answers 202 after 4 s"})
+			cw.noteMu.Unlock()
+			continue
+		}
+		run.Count("emptied_lists_enforced", 1)
+		in.Rules = c08RuleSet{Name: fmt.Sprintf("emptied-%d", hi), Domains: []string{"nomatch.invalid"}, File: []c08FileLine{}}
+		for _, s := range subs {
+			for _, src := range []string{"cookie", "bearer"} {
+				for t, target := range c08Targets {
+					id := fmt.Sprintf("c08e-%s-%d-%d-%s-%d", in.Store, hi, s.n, src, t)
+					cell := fmt.Sprintf("emptied|%s|%s|%s|%s|%s", h.how, h.form, src, target, in.Store)
+					if src == "cookie" {
+						cw.restore(s)
+						cw.probe(in, history, src, s, s.cookieLines[in.key()], "", target, false, cell, id)
+					} else {
+						cw.probe(in, history, src, s, nil, "Bearer "+s.bearer, target, false, cell, id)
+					}
+				}
+			}
+		}
+	}
+}
+
+// c08NoEmailLogins: a login whose identity carries no e-mail address at all must not get a session — under restrictive
+// rules and under --email-domain=* alike (observed and documented: '*' authenticates any e-mail, not the absence of one;
+// only htpasswd sessions are exempt). The generic OIDC provider already stops such a login while enriching the session,
+// so the cases run with --provider=adfs, an OIDC-derived provider that tolerates a missing e-mail (it falls back to
+// the `upn` claim and carries on when that is missing too). ADFS decodes the state parameter twice, the browser
+// played by the harness does the same.
+func c08NoEmailLogins(cw *c08World) {
+	run := cw.run
+	type rs struct {
+		name  string
+		flags []string
+		rules c08RuleSet
+	}
+	sets := []rs{
+		{"star", []string{"--email-domain=*"}, c08RuleSet{Name: "adfs-star", Domains: []string{"*"}}},
+		{"exact", []string{"--email-domain=example.com"}, c08RuleSet{Name: "adfs-exact", Domains: []string{"example.com"}}},
+		{"star+group", []string{"--email-domain=*", "--allowed-group=g1"}, c08RuleSet{Name: "adfs-star+group", Domains: []string{"*"}, Groups: []string{"g1"}}},
+	}
+	type ident struct {
+		label string
+		id    vfIdentity
+		email string // what the session's e-mail will be ("" = none)
+	}
+	idents := []ident{
+		{"no-email-no-upn", vfIdentity{Sub: "adfs-1", Groups: []string{"g1"}, PreferredUsername: "pu", Profile: map[string]interface{}{"sub": "adfs-1"}}, ""},
+		{"no-email-empty-upn", vfIdentity{Sub: "adfs-2", Groups: []string{"g1"}, PreferredUsername: "pu", Profile: map[string]interface{}{"sub": "adfs-2"}, Extra: map[string]interface{}{"upn": ""}}, ""},
+		{"empty-email-claim", vfIdentity{Sub: "adfs-3", Groups: []string{"g1"}, PreferredUsername: "pu", Profile: map[string]interface{}{"sub": "adfs-3", "email": ""}, Extra: map[string]interface{}{"email": ""}}, ""},
+		{"upn-only-foreign", vfIdentity{Sub: "adfs-4", Groups: []string{"g1"}, PreferredUsername: "pu", Profile: map[string]interface{}{"sub": "adfs-4"}, Extra: map[string]interface{}{"upn": "u@evilexample.com"}}, "u@evilexample.com"},
+		{"upn-only", vfIdentity{Sub: "adfs-5", Groups: []string{"g1"}, PreferredUsername: "pu", Profile: map[string]interface{}{"sub": "adfs-5"}, Extra: map[string]interface{}{"upn": "u@example.com"}}, "u@example.com"},
+		{"email", vfIdentity{Sub: "adfs-6", Email: "u@example.com", Groups: []string{"g1"}, PreferredUsername: "pu"}, "u@example.com"},
+	}
+	for _, set := range sets {
+		for _, store := range []string{"cookie", "redis"} {
+			p, err := cw.w.NewProxy(append([]string{"--provider=adfs", "--session-store-type=" + store, "--redis-connection-url=" + cw.w.RedisURL()}, set.flags...)...)
+			if err != nil {
+				run.T.Fatalf("c08: adfs instance: %v", err)
+			}
+			for _, idn := range idents {
+				want := idn.email != ""
+				if want {
+					want, _ = set.rules.allowed(idn.email, idn.id.Groups)
+				}
+				b := vfNewBrowser("")
+				var cb *vfResp
+				var lerr error
+				newKey, _ := cw.withNewRedisKey(func() {
+					var l *vfLogin
+					if l, lerr = b.StartLogin(p, idn.id, "/x"); lerr != nil {
+						return
+					}
+					l.State, _ = url.QueryUnescape(l.State)
+					cb = b.Get(p, l.CallbackTarget(p))
+				})
+				run.Eval(fmt.Sprintf("%s|%s|login-adfs|%s|want=%v", set.rules.Name, idn.label, store, want))
+				if cb == nil {
+					run.T.Errorf("c08: adfs login %s did not reach the callback: %v", idn.label, lerr)
+					continue
+				}
+				left := c08SessionLines(b)
+				if want {
+					if cb.Code == 302 && len(left) > 0 {
+						run.Count("adfs_logins_allowed_succeeded", 1)
+					} else {
+						run.Count("adfs_logins_allowed_but_refused(not judged here: C01)", 1)
+					}
+					continue
+				}
+				wit := map[string]interface{}{"flags": p.Flags, "store": store, "identity": idn.label, "id_token_claims": map[string]interface{}{"sub": idn.id.Sub, "email": idn.id.Email, "extra": idn.id.Extra},
+					"userinfo_profile": idn.id.Profile, "callback_status": cb.Code, "callback_set_cookie": cb.SetCookies(), "session_cookies_in_browser": left, "new_redis_key": newKey, "body": vfTrunc(vfErrText(cb.Body), 200)}
+				sig, what := "c08:session-for-refused-login", fmt.Sprintf("ADFS login of identity %q (session e-mail %+q) at %s (%s store): callback status %d", idn.label, idn.email, set.rules.Name, store, cb.Code)
+				if idn.email == "" {
+					sig = "c08:login-without-email-gets-session"
+					run.Count("logins_without_email_refused", 1)
+				}
+				served := false
+				for t, target := range c08Targets {
+					id := fmt.Sprintf("c08adfs-%s-%s-%s-%d", set.name, store, idn.label, t)
+					r := b.Get(p, target, "X-Vf-Id", id)
+					if len(cw.w.Up.FindHit(id)) > 0 || r.Code == 202 || (strings.HasPrefix(target, "/oauth2/userinfo") && r.Code == 200 && strings.TrimSpace(string(r.Body)) != "{}") {
+						served = true
+						wit["followup_"+target] = r.Code
+					}
+				}
+				switch {
+				case cb.Panic != "":
+					c08Violation(run, "c08:panic", "callback panicked: "+what, wit)
+				case len(left) > 0 || c08IssuesSession(cb.SetCookies()):
+					c08Violation(run, sig, "a login that must be refused was given a session cookie: "+what, wit)
+				case newKey != "":
+					c08Violation(run, sig, "a login that must be refused left a session in Redis: "+what, wit)
+				case cb.Code < 400:
+					c08Violation(run, sig, "a login that must be refused did not get an error page: "+what, wit)
+				case served:
+					c08Violation(run, sig, "after the refused login the browser was served: "+what, wit)
+				}
+			}
+		}
 	}
 }
 
@@ -1134,6 +1342,7 @@ func TestVerif_C08(t *testing.T) {
 	w.Up.Reset()
 	phase("auth_only", func() { c08AuthOnly(cw) })
 	phase("reload", func() { c08Reload(cw) })
+	phase("logins_without_email", func() { c08NoEmailLogins(cw) })
 
 	cw.noteMu.Lock()
 	for k, v := range cw.notes {
@@ -1144,7 +1353,7 @@ func TestVerif_C08(t *testing.T) {
 	for _, c := range []struct {
 		name string
 		min  int64
-	}{{"served_allowed", 1000}, {"refused_disallowed", 1000}, {"refusals_with_cookie_deletion_checked", 500}, {"logins_refused_expected", 100}, {"logins_allowed_succeeded", 50}, {"authonly_202", 100}, {"authonly_refused", 100}, {"reloads_observed", 6}, {"sessions_split_over_several_cookies", 1}} {
+	}{{"served_allowed", 1000}, {"refused_disallowed", 1000}, {"refusals_with_cookie_deletion_checked", 500}, {"logins_refused_expected", 100}, {"logins_allowed_succeeded", 50}, {"authonly_202", 100}, {"authonly_refused", 100}, {"reloads_observed", 6}, {"sessions_split_over_several_cookies", 1}, {"emptied_lists_enforced", 4}, {"logins_without_email_refused", 8}} {
 		if run.Counter(c.name) < c.min && run.Violations() == 0 {
 			fmt.Printf("INCONCLUSIVE property=C08 reason=counter %s=%d < %d: the workload did not exercise this outcome enough\n", c.name, run.Counter(c.name), c.min)
 			t.Fail()
